@@ -61,6 +61,7 @@ Definition v_ares (r : ares) : val :=
   | AStop => L [I 1]
   | AErr ENotAllowed => L [I 2; I 1]
   | AErr EValueError => L [I 2; I 2]
+  | AErr EInvalidHeader => L [I 2; I 3]
   | ANone => L [I 3]
   | ABool b => L [I 4; vbool b]
   | AInt z => L [I 5; I z]
@@ -92,7 +93,8 @@ Definition d_ares (v : val) : ares :=
   | L [I 0; b] => ABytes (dstr b)
   | L [I 1] => AStop
   | L [I 2; I 1] => AErr ENotAllowed
-  | L [I 2; I _] => AErr EValueError
+  | L [I 2; I 2] => AErr EValueError
+  | L [I 2; I _] => AErr EInvalidHeader
   | L [I 3] => ANone
   | L [I 4; b] => ABool (dbool b)
   | L [I 5; I z] => AInt z
@@ -104,7 +106,36 @@ Definition d_aobs (v : val) : aobs :=
      ao_eof := dbool (nth_val 3 v); ao_closed := dbool (nth_val 4 v);
      ao_awaits := dZ (nth_val 5 v); ao_late := dZ (nth_val 6 v); ao_over := dZ (nth_val 7 v) |}.
 
-(* ops: 0 WSGI history (model + the oracle on the model's own observations);
+Definition d_clen (v : val) : clen :=
+  match v with
+  | L [I 0] => CAbsent
+  | L [I 1] => CEmpty
+  | L [I 2] => CInvalid
+  | L [I 3; I n] => CValue n
+  | _ => CAbsent
+  end.
+
+Definition d_qop (v : val) : qop :=
+  match v with
+  | L [I 10; s] => QRawRead (d_zopt s)
+  | L [I 11; s] => QRawReadline (d_zopt s)
+  | _ => QBounded (d_wop v)
+  end.
+
+Definition v_qobs (p : wres * wreq) : val :=
+  let '(r, q) := p in
+  L [v_wres r; vbool (w_eof (q_wst q)); I (s_pos (q_src q)); I (s_reach (q_src q));
+     I (s_unb (q_src q))].
+
+Definition v_rqobs (p : ares * areq) : val :=
+  let '(r, rq) := p in
+  match rq_stream rq with
+  | Some st => v_aobs (r, st)
+  | None => L [v_ares r]
+  end.
+
+(* ops: 4 WSGI request object (clen, data, caps, qops); 5 ASGI request object;
+        0 WSGI history (model + the oracle on the model's own observations);
         1 ASGI history; 2 WSGI oracle on observations of the implementation; 3 ASGI oracle *)
 Definition run (v : val) : val :=
   match v with
@@ -117,13 +148,21 @@ Definition run (v : val) : val :=
     let st := a_init (dbool fx) (d_first first) (d_zopt cl) (dlist d_event events) in
     let tr := arun (dbool fx) aops st in
     L [L [I (pos st); vbool (a_eof st)]; vlist v_aobs tr;
-       vlist vN (a_oracle (d_first first) (d_zopt cl) (dlist d_event events) (pos st)
+       vlist vN (a_oracle (d_first first) (d_zopt cl) (dlist d_event events) (pos st) (a_eof st)
                           (a_observes aops tr))]
   | L [I 2; cl; data; obs] =>
     vlist vN (w_oracle (dZ cl) (dstr data) (dlist d_wobs obs))
-  | L [I 3; first; cl; events; tell0; obs] =>
-    vlist vN (a_oracle (d_first first) (d_zopt cl) (dlist d_event events) (dZ tell0)
+  | L [I 3; first; cl; events; tell0; eof0; obs] =>
+    vlist vN (a_oracle (d_first first) (d_zopt cl) (dlist d_event events) (dZ tell0) (dbool eof0)
                        (dlist d_aobs obs))
+  | L [I 4; cl; data; caps; ops] =>
+    let tr := qrun (dlist d_qop ops) (q_init (d_clen cl) (src0 (dstr data) (dlist dnat caps))) in
+    L [I (wsgi_budget (d_clen cl)); vlist v_qobs tr;
+       I (match tr with [] => 0 | _ => q_made (snd (last tr (RStop, q_init CAbsent (src0 [] [])))) end)]
+  | L [I 5; first; cl; events; ops] =>
+    let tr := areq_run (dlist (fun p => (dbool (nth_val 0 p), d_aop (nth_val 1 p))) ops)
+                       (areq_init (d_first first) (d_clen cl) (dlist d_event events)) in
+    L [vlist v_rqobs tr]
   | _ => L [I (-1)]
   end.
 
